@@ -298,6 +298,69 @@ Section Impl.
   Proof. intros H. eapply Forall_impl; [|exact H]. apply frall_impl. Qed.
 End Impl.
 
+(* composition, extensionality and validity of the renaming of thunks and deferred statements *)
+Lemma lvren_idf lv : lvren (fun i => i) (fun l => l) lv = lv.
+Proof.
+  induction lv as [v|l IH|l IH|loc|sc name IH|f args IH] using lv_ind; cbn [lvren].
+  - f_equal. apply vren_idf.
+  - f_equal. rewrite <- (map_id l) at 2. apply map_ext_in. intros x Hx. rewrite Forall_forall in IH. auto.
+  - f_equal. rewrite <- (map_id l) at 2. apply map_ext_in. intros x Hx. rewrite Forall_forall in IH. auto.
+  - reflexivity.
+  - f_equal. exact IH.
+  - f_equal. rewrite <- (map_id args) at 2. apply map_ext_in. intros x Hx. rewrite Forall_forall in IH. auto.
+Qed.
+Lemma lvren_back okfn (D L : N -> Prop) rg rl rg' rl' lv : (forall i, D i -> rg' (rg i) = i) -> (forall l, L l -> rl' (rl l) = l) ->
+  lvall okfn D L lv -> lvren rg' rl' (lvren rg rl lv) = lv.
+Proof. intros HD HL H. rewrite lvren_comp. rewrite (lvren_ext okfn D L _ (fun i => i) _ (fun l => l) lv HD HL H). apply lvren_idf. Qed.
+
+Section RenBack.
+  Variables (eaok : amap -> Prop) (okfn : ident -> Prop) (D L : N -> Prop) (rg rl rg' rl' : N -> N).
+  Hypothesis HD : forall i, D i -> rg' (rg i) = i.
+  Hypothesis HL : forall l, L l -> rl' (rl l) = l.
+  Lemma vren_back v : vall D v -> vren rg' (vren rg v) = v.
+  Proof. intros H. rewrite vren_comp. apply (vren_fix D). exact HD. exact H. Qed.
+  Lemma atren_back l : Forall (atall okfn D L) l -> map (atren rg' rl') (map (atren rg rl) l) = l.
+  Proof.
+    intros H. rewrite map_map. rewrite <- (map_id l) at 2. apply map_ext_in. intros [k lv] Hin. unfold atren. cbn [fst snd]. f_equal.
+    rewrite Forall_forall in H. apply (lvren_back okfn D L); auto. apply (H _ Hin).
+  Qed.
+  Lemma lsren_back st : lsall eaok okfn D L st -> lsren rg' rl' (lsren rg rl st) = st.
+  Proof.
+    destruct st; cbn [lsall lsren].
+    - intros [H1 H2]. rewrite (lvren_back okfn D L) by assumption. rewrite atren_back by assumption. reflexivity.
+    - intros (H1 & H2 & _). rewrite !(lvren_back okfn D L) by assumption. reflexivity.
+    - intros (H1 & H2 & H3). rewrite !(lvren_back okfn D L) by assumption. rewrite atren_back by assumption. reflexivity.
+    - intros H. f_equal. rewrite map_map. rewrite <- (map_id args) at 2. apply map_ext_in. intros [lv|] Hin; cbn [option_map]; [|reflexivity].
+      f_equal. rewrite Forall_forall in H. apply (lvren_back okfn D L); auto. apply (H _ Hin).
+  Qed.
+  Lemma thren_back th : thall okfn D L th -> thren rg' rl' (thren rg rl th) = th.
+  Proof.
+    destruct th as [st dbg]. unfold thall, thren. cbn [th_state th_dbg]. intros H. f_equal. destruct st; cbn [tsren tsall] in *.
+    - f_equal. apply (lvren_back okfn D L); auto.
+    - reflexivity.
+    - f_equal. apply vren_back, H.
+  Qed.
+End RenBack.
+
+Section RenAll.
+  Variables (eaok : amap -> Prop) (okfn : ident -> Prop) (D D' L L' : N -> Prop) (rg rl : N -> N).
+  Hypothesis HD : forall i, D i -> D' (rg i).
+  Hypothesis HL : forall l, L l -> L' (rl l).
+  Lemma atall_atren l : Forall (atall okfn D L) l -> Forall (atall okfn D' L') (map (atren rg rl) l).
+  Proof. intros H. apply Forall_forall. intros y Hy. apply in_map_iff in Hy as (x & <- & Hx). rewrite Forall_forall in H. unfold atall, atren. cbn [snd]. eapply lvall_lvren; eauto. apply (H _ Hx). Qed.
+  Lemma lsall_lsren st : lsall eaok okfn D L st -> lsall eaok okfn D' L' (lsren rg rl st).
+  Proof.
+    destruct st; cbn [lsall lsren].
+    - intros [H1 H2]. split; [eapply lvall_lvren; eauto|apply atall_atren, H2].
+    - intros (H1 & H2 & H3). split; [|split]; [eapply lvall_lvren; eauto..|exact H3].
+    - intros (H1 & H2 & H3). split; [|split]; [eapply lvall_lvren; eauto..|apply atall_atren, H3].
+    - intros H. apply Forall_forall. intros y Hy. apply in_map_iff in Hy as (x & <- & Hx). rewrite Forall_forall in H. specialize (H _ Hx).
+      destruct x as [lv|]; cbn [option_map]; [eapply lvall_lvren; eauto|exact I].
+  Qed.
+  Lemma thall_thren th : thall okfn D L th -> thall okfn D' L' (thren rg rl th).
+  Proof. unfold thall, thren. cbn [th_state]. destruct (th_state th); cbn [tsren tsall]; auto; [eapply lvall_lvren; eauto|eapply vall_vren; eauto]. Qed.
+End RenAll.
+
 (* ---------------- environments under renaming ---------------- *)
 Section Frames.
   Variables (rg rl : N -> N).
